@@ -606,7 +606,8 @@ Section SIM.
     read_arr h s = Some l -> n0 <= length h -> slen s <= scap s -> (n0 <= sid s \/ scap s <= slen s) ->
     exists h' s', go_append o h s xs = Ok (h', s') /\ keeps n0 h h' /\ read_arr h' s' = Some (l ++ xs) /\
       slen s' = slen s + length xs /\ slen s' <= scap s' /\ (n0 <= sid s' \/ (xs = [] /\ s' = s)) /\
-      (forall j, j < length h -> j <> sid s -> nth_error h' j = nth_error h j).
+      (forall j, j < length h -> j <> sid s -> nth_error h' j = nth_error h j) /\
+      (sid s' = sid s \/ sid s' = length h).
   Proof.
     intros n0 h s l xs Hr Hn0 Hcap Hown. unfold go_append.
     destruct (length xs =? 0) eqn:E0.
@@ -635,7 +636,8 @@ Section SIM.
     read_kv h s = Some l -> n0 <= length h -> slen s <= scap s -> (n0 <= sid s \/ scap s <= slen s) ->
     exists h' s', go_append_kv o h s xs = Ok (h', s') /\ keeps n0 h h' /\ read_kv h' s' = Some (l ++ xs) /\
       slen s' = slen s + length xs /\ slen s' <= scap s' /\ (n0 <= sid s' \/ (xs = [] /\ s' = s)) /\
-      (forall j, j < length h -> j <> sid s -> nth_error h' j = nth_error h j).
+      (forall j, j < length h -> j <> sid s -> nth_error h' j = nth_error h j) /\
+      (sid s' = sid s \/ sid s' = length h).
   Proof.
     intros n0 h s l xs Hr Hn0 Hcap Hown. unfold go_append_kv.
     destruct (length xs =? 0) eqn:E0.
@@ -677,7 +679,7 @@ Section SIM.
       slen s' = slen s /\ slen s' <= scap s' /\ (length h <= sid s' \/ (l = [] /\ scap s' = 0)).
   Proof.
     intros. unfold go_clone. rewrite H. simpl.
-    destruct (go_append_spec (length h) h _ [] l (read_arr_zero _ _ _ H) (le_n _)) as (h' & s' & Ha & Hk & Hr & Hl & Hc & Hf & _);
+    destruct (go_append_spec (length h) h _ [] l (read_arr_zero _ _ _ H) (le_n _)) as (h' & s' & Ha & Hk & Hr & Hl & Hc & Hf & _ & _);
       simpl; auto.
     exists h', s'. simpl in *. splits; auto.
     - rewrite Hl. eapply read_arr_len; eauto.
@@ -688,7 +690,7 @@ Section SIM.
       slen s' = slen s /\ slen s' <= scap s' /\ (length h <= sid s' \/ (l = [] /\ scap s' = 0)).
   Proof.
     intros. unfold go_clone_kv. rewrite H. simpl.
-    destruct (go_append_kv_spec (length h) h _ [] l (read_kv_zero _ _ _ H) (le_n _)) as (h' & s' & Ha & Hk & Hr & Hl & Hc & Hf & _);
+    destruct (go_append_kv_spec (length h) h _ [] l (read_kv_zero _ _ _ H) (le_n _)) as (h' & s' & Ha & Hk & Hr & Hl & Hc & Hf & _ & _);
       simpl; auto.
     exists h', s'. simpl in *. splits; auto.
     - rewrite Hl. eapply read_kv_len; eauto.
@@ -795,5 +797,182 @@ Section SIM.
     destruct (new_array_spec h h3 s2 _ (firstn k pl ++ [pv] ++ skipn (k + 1) pl) Hrd C2) as (r & Hn & HA); auto.
     { apply F2_app; [apply F2_firstn; auto|]. constructor; auto. apply F2_skipn; auto. }
     rewrite Hn. simpl. eexists; split; [reflexivity|]. split; simpl; auto.
+  Qed.
+
+  Lemma is_array_abs : forall h v p, A h v p -> is_array v = p_is_array p.
+  Proof. intros. inversion H; reflexivity. Qed.
+  Lemma is_map_abs : forall h v p, A h v p -> is_map v = p_is_map p.
+  Proof. intros. inversion H; reflexivity. Qed.
+
+  Lemma read_arr_clip : forall h s, read_arr h (clip s) = read_arr h s.
+  Proof. reflexivity. Qed.
+
+  Lemma arr_plus_sim : forall h lv pl rv prv,
+    A h lv (PArr pl) -> A h rv prv ->
+    res_rel (VR h) (arr_plus c o h lv rv) (p_plus (PArr pl) prv).
+  Proof.
+    intros h lv pl rv prv HL HRV.
+    destruct (elements_spec h h lv pl HL (keeps_refl _ _)) as (h1 & ls & l & He & K1 & R1 & F1 & C1 & Hlen & Hk).
+    unfold arr_plus. rewrite He. simpl. rewrite Hcow. simpl.
+    set (ls' := if msa c <? slen ls then clip ls else ls).
+    assert (X : read_arr h1 ls' = Some l /\ slen ls' <= scap ls' /\ (length h <= sid ls' \/ scap ls' <= slen ls')).
+    { unfold ls'. destruct Hk as [(Hs & Hc & Hb)|(-> & Hb & Hs)].
+      - rewrite Hb. splits; auto. left. lia.
+      - replace (msa c <? slen ls) with true by (symmetry; apply Nat.ltb_lt; auto).
+        rewrite read_arr_clip. splits; auto. }
+    destruct X as (R1' & C1' & O1). clearbody ls'.
+    pose proof (keeps_len _ _ _ K1) as L1.
+    rewrite (is_array_abs _ _ _ HRV).
+    destruct prv as [z| |pr|pm]; simpl.
+    1,2,4:
+      (destruct (go_append_spec (length h) h1 ls' l [rv] R1' L1 C1' O1) as (h3 & s3 & Ha & K3 & R3 & L3 & C3 & _);
+       rewrite Ha; simpl;
+       match goal with |- context [PArr (?ppl ++ [?q])] =>
+         destruct (new_array_spec h h3 s3 _ (ppl ++ [q]) R3 C3) as (r & Hn & HA);
+           [apply F2_app; auto | eapply keeps_trans; eauto |] end;
+       rewrite Hn; simpl; eexists; split; [reflexivity|]; split; simpl; auto; eapply keeps_trans; eauto).
+    destruct (elements_spec h h1 rv pr HRV K1) as (h2 & rs & xs & He2 & K2 & R2 & F2 & C2 & _ & _).
+    rewrite He2. simpl. rewrite R2. simpl.
+    assert (K12 : keeps (length h) h h2) by (eapply keeps_trans; eauto; eapply keeps_le; eauto).
+    assert (R1'' : read_arr h2 ls' = Some l).
+    { rewrite (read_arr_keeps _ _ _ _ K2); auto. eapply read_arr_lt; eauto. }
+    pose proof (keeps_len _ _ _ K12) as L2.
+    destruct (go_append_spec (length h) h2 ls' l xs R1'' L2 C1' O1) as (h3 & s3 & Ha & K3 & R3 & L3 & C3 & _).
+    rewrite Ha. simpl.
+    destruct (new_array_spec h h3 s3 _ (pl ++ pr) R3 C3) as (r & Hn & HA);
+      [apply F2_app; auto | eapply keeps_trans; eauto |].
+    rewrite Hn. simpl. eexists; split; [reflexivity|]. split; simpl; auto. eapply keeps_trans; eauto.
+  Qed.
+
+  Lemma append_times_spec : forall n0 n h r ls l acc,
+    read_arr h ls = Some l -> read_arr h r = Some acc -> n0 <= length h -> slen r <= scap r ->
+    n0 <= sid r -> sid ls <> sid r ->
+    exists h' r', append_times o h r ls n = Ok (h', r') /\ keeps n0 h h' /\
+      read_arr h' r' = Some (acc ++ repeat_list l n) /\ slen r' <= scap r'.
+  Proof.
+    induction n; intros h r ls l acc Rl Rr Hn0 Hc Hown Hne; simpl.
+    - exists h, r. rewrite app_nil_r. splits; auto using keeps_refl.
+    - rewrite Rl. simpl.
+      destruct (go_append_spec n0 h r acc l Rr Hn0 Hc (or_introl Hown)) as (h1 & r1 & Ha & K1 & R1 & L1 & C1 & O1 & Oth & Sid).
+      rewrite Ha. simpl.
+      assert (Rl1 : read_arr h1 ls = Some l).
+      { unfold read_arr. rewrite Oth; auto. eapply read_arr_lt; eauto. }
+      assert (Hown1 : n0 <= sid r1) by (destruct O1 as [|[_ ->]]; auto).
+      assert (Hne1 : sid ls <> sid r1).
+      { destruct Sid as [->| ->]; auto. pose proof (read_arr_lt _ _ _ Rl). lia. }
+      pose proof (keeps_len _ _ _ K1).
+      destruct (IHn h1 r1 ls l (acc ++ l) Rl1 R1 ltac:(lia) C1 Hown1 Hne1) as (h2 & r2 & Hb & K2 & R2 & C2).
+      exists h2, r2. rewrite Hb. splits; auto.
+      + eapply keeps_trans; eauto.
+      + rewrite R2. now rewrite <- app_assoc.
+  Qed.
+
+  Lemma arr_repeat_sim : forall h lv pl n,
+    A h lv (PArr pl) ->
+    res_rel (VR h) (arr_repeat c o h lv n)
+            (if (n <? 0)%Z then Err else Ok (PArr (repeat_list pl (Z.to_nat n)))).
+  Proof.
+    intros h lv pl n HL.
+    destruct (elements_spec h h lv pl HL (keeps_refl _ _)) as (h1 & ls & l & He & K1 & R1 & F1 & C1 & Hlen & Hk).
+    unfold arr_repeat. rewrite He. simpl.
+    destruct (n <? 0)%Z; [reflexivity|].
+    unfold make_arr. simpl.
+    set (h2 := h1 ++ [CArr []]).
+    pose proof (keeps_len _ _ _ K1) as L1.
+    assert (K2 : keeps (length h) h h2).
+    { eapply keeps_trans; eauto. apply (keeps_alloc (length h) h1 (CArr [])). auto. }
+    assert (Rl : read_arr h2 ls = Some l).
+    { unfold read_arr, h2. rewrite nth_error_app1 by (eapply read_arr_lt; eauto). apply R1. }
+    assert (Rr : read_arr h2 (mkslice (length h1) 0 0 (slen ls * Z.to_nat n)) = Some []).
+    { apply (read_arr_alloc h1 []). reflexivity. }
+    destruct (append_times_spec (length h) (Z.to_nat n) h2 _ ls l [] Rl Rr) as (h3 & r3 & Ha & K3 & R3 & C3);
+      simpl; try lia.
+    { unfold h2. rewrite app_length. simpl. lia. }
+    { pose proof (read_arr_lt _ _ _ R1). lia. }
+    rewrite Ha. simpl. simpl in R3.
+    destruct (new_array_spec h h3 r3 _ (repeat_list pl (Z.to_nat n)) R3 C3) as (r & Hn & HA);
+      [apply F2_repeat_list; auto | eapply keeps_trans; eauto |].
+    rewrite Hn. simpl. eexists; split; [reflexivity|]. split; simpl; auto. eapply keeps_trans; eauto.
+  Qed.
+
+  Lemma window_sub : forall {X} (cl : list X) off len w l n,
+    window cl off len = Some w -> l + n <= len -> window cl (off + l) n = window w l n.
+  Proof.
+    intros. pose proof (window_length _ _ _ _ H).
+    apply window_some in H as [H ->].
+    unfold window.
+    replace (off + l + n <=? length cl) with true by (symmetry; apply Nat.leb_le; lia).
+    replace (l + n <=? length (firstn len (skipn off cl))) with true by (symmetry; apply Nat.leb_le; lia).
+    f_equal. rewrite <- (skipn_skipn' l off cl).
+    rewrite <- (firstn_skipn_comm' l n (firstn len (skipn off cl))).
+    rewrite firstn_firstn. replace (Nat.min (l + n) len) with (l + n) by lia.
+    now rewrite firstn_skipn_comm'.
+  Qed.
+
+  Lemma arr_slice_sim : forall h v pl l r, A h v (PArr pl) -> l <= r -> r <= length pl ->
+    exists w, window pl l (r - l) = Some w /\
+      res_rel (VR h) (arr_slice c h v l r) (Ok (PArr w)).
+  Proof.
+    intros h v pl l r HV Hlr Hr.
+    destruct (elements_spec h h v pl HV (keeps_refl _ _)) as (h1 & s & l0 & He & K1 & R1 & F1 & C1 & Hlen & Hk).
+    pose proof (read_arr_len _ _ _ R1) as HL0. pose proof (F2_length _ _ _ F1) as HLp.
+    assert (Hw : exists w0, window l0 l (r - l) = Some w0).
+    { eexists. apply window_some. split; [lia|reflexivity]. }
+    destruct Hw as [w0 Hw0].
+    destruct (F2_window _ _ _ _ _ _ F1 Hw0) as (w & Hw & FW).
+    exists w. split; auto.
+    unfold arr_slice. rewrite He. simpl. unfold reslice.
+    replace ((l <=? r) && (r <=? scap s)) with true
+      by (symmetry; apply andb_true_iff; split; apply Nat.leb_le; lia).
+    simpl.
+    assert (R2 : read_arr h1 (mkslice (sid s) (soff s + l) (r - l) (scap s - l)) = Some w0).
+    { unfold read_arr in *. simpl. destruct (nth_error h1 (sid s)) as [[cl| |]|]; try discriminate.
+      rewrite (window_sub cl _ _ _ l (r - l) R1) by lia. auto. }
+    destruct (new_array_spec h h1 _ w0 w R2) as (x & Hn & HA); simpl; auto; try lia.
+    rewrite Hn. simpl. eexists; split; [reflexivity|]. split; auto.
+  Qed.
+
+  Lemma window_skip1 : forall {X} (l : list X), 1 < length l -> window l 1 (length l - 1) = Some (skipn 1 l).
+  Proof.
+    intros. apply window_some. split; [lia|]. rewrite firstn_all2; auto. rewrite skipn_length. lia.
+  Qed.
+
+  Lemma arr_rest_sim : forall h v pl, A h v (PArr pl) ->
+    res_rel (VR h) (arr_rest c h v) (p_rest (PArr pl)).
+  Proof.
+    intros h v pl HV.
+    assert (Hlen : arr_len v = length pl).
+    { destruct (elements_spec h h v pl HV (keeps_refl _ _)) as (_ & _ & _ & _ & _ & _ & _ & _ & Hlen & _). auto. }
+    unfold arr_rest, p_rest. rewrite Hlen.
+    destruct (length pl <=? 1) eqn:E.
+    - eexists; split; [reflexivity|]. split; simpl; auto using keeps_refl. constructor.
+    - apply Nat.leb_gt in E.
+      destruct (arr_slice_sim h v pl 1 (length pl) HV) as (w & Hw & HR); try lia.
+      rewrite window_skip1 in Hw by auto. inversion Hw; subst. apply HR.
+  Qed.
+
+  Lemma arr_read_spec : forall h v pl, A h v (PArr pl) -> exists l, arr_read h v = Ok l /\ Forall2 (A h) l pl.
+  Proof.
+    intros. inversion H; subst; simpl.
+    - eexists; split; eauto. apply AbsL_F2; auto.
+    - match goal with H : read_arr h s = Some _ |- _ => rewrite H end. simpl. eexists; split; eauto. apply AbsL_F2; auto.
+  Qed.
+
+  Lemma arr_len_abs : forall h v pl, A h v (PArr pl) -> arr_len v = length pl.
+  Proof.
+    intros. destruct (elements_spec h h v pl H (keeps_refl _ _)) as (_ & _ & _ & _ & _ & _ & _ & _ & Hlen & _). auto.
+  Qed.
+
+  Lemma arr_get_sim : forall h v pl i, A h v (PArr pl) ->
+    res_rel (A h) (arr_get h v i) (p_get (PArr pl) i).
+  Proof.
+    intros h v pl i HV. unfold arr_get, p_get. rewrite (arr_len_abs _ _ _ HV).
+    destruct (idx_norm (length pl) i) as [k|] eqn:E.
+    - pose proof (idx_norm_lt _ _ _ E) as Hk.
+      destruct (arr_read_spec _ _ _ HV) as (l & -> & HF). simpl.
+      destruct (nth_error l k) eqn:En.
+      + destruct (F2_nth _ _ _ _ _ HF En) as (y & -> & HA). simpl. eauto.
+      + apply nth_error_None in En. rewrite (F2_length _ _ _ HF) in En. lia.
+    - simpl. eexists; split; eauto. constructor.
   Qed.
 End SIM.
